@@ -195,7 +195,7 @@ func genSpell(t *rapid.T) []int {
 
 // Edit is one call that changes a list the faulted setting lies in.
 type Edit struct {
-	Op     string `json:"op"`               // remove | prepend | append | setappend | pad | replace
+	Op     string `json:"op"`               // remove | prepend | append (Merge with that policy) | setappend | pad | replace (Set*/SetChild) | mergeover (Merge, default policy, of a list that covers the elements before the fault)
 	At     int    `json:"at"`               // which of the lists on the way to the fault, outermost first (modulo their number; fixed-size arrays do not count)
 	J      int    `json:"j"`                // remove, replace: which of the other elements (modulo the candidates)
 	Behind bool   `json:"behind,omitempty"` // remove, replace: prefer an element behind the one the fault is in (default: before it)
@@ -213,7 +213,7 @@ type Hist struct {
 
 const histSource = "edit's %d.yml"
 
-var editOps = []string{"remove", "remove", "remove", "prepend", "prepend", "append", "setappend", "replace", "pad"}
+var editOps = []string{"remove", "remove", "remove", "prepend", "prepend", "append", "setappend", "replace", "pad", "mergeover"}
 
 func listMove(move string) bool { return move == "list" || move == "append" || move == "prepend" }
 
@@ -433,10 +433,22 @@ func applyHist(c *Case, s *site, cfg *ucfg.Config, baseData interface{}, classes
 			} else {
 				classes["history: an element behind the fault is removed"] = true
 			}
-		case "prepend", "append":
-			policy := ucfg.PrependValues
-			if e.Op == "append" {
+		case "prepend", "append", "mergeover":
+			var policy ucfg.Option = ucfg.PrependValues
+			list := []interface{}{copyOf}
+			switch e.Op {
+			case "append":
 				policy = ucfg.AppendValues
+			case "mergeover":
+				// elements 0..m (m before the fault) are merged, index by index, with copies of valid elements
+				if i == 0 {
+					classes["history: edit skipped (no other element)"] = true
+					continue
+				}
+				policy = ucfg.PathSep(".") // the default policy
+				for m := mod(e.J, i); m > 0; m-- {
+					list = append(list, copyData(base[mod(e.Src+m, len(base))]))
+				}
 			}
 			above := false
 			for _, seg := range listSegs {
@@ -448,28 +460,36 @@ func applyHist(c *Case, s *site, cfg *ucfg.Config, baseData interface{}, classes
 				if err != nil {
 					return nil, err
 				}
-				if err := h.Merge([]interface{}{copyOf}, append(opts, policy)...); err != nil {
+				if err := h.Merge(list, append(opts, policy)...); err != nil {
 					return nil, fmt.Errorf("%s: Merge of a list into the handle: %v", what, err)
 				}
 			} else {
-				var data interface{} = []interface{}{copyOf}
+				var data interface{} = list
 				for x := len(listSegs) - 1; x >= 0; x-- {
 					data = map[string]interface{}{listSegs[x]: data}
 				}
 				// no PathSep: every segment is one key
-				if err := cfg.Merge(data, append(opts[1:len(opts):len(opts)], policy)...); err != nil {
+				mopts := opts[1:len(opts):len(opts)]
+				if e.Op != "mergeover" {
+					mopts = append(mopts, policy)
+				}
+				if err := cfg.Merge(data, mopts...); err != nil {
 					return nil, fmt.Errorf("%s: Merge below '%s': %v", what, name, err)
 				}
 				classes["history: edit by a Merge at the root of the configuration that is read"] = true
 			}
-			lens[k] = ln + 1
-			if e.Op == "prepend" {
+			switch e.Op {
+			case "prepend":
+				lens[k] = ln + 1
 				cur[k] = strconv.Itoa(i + 1)
 				shifted = true
 				classes["history: an element is prepended by a Merge (the fault moves up)"] = true
 				classes["history: ... the element that moves up is a(n) "+elemKind] = true
-			} else {
+			case "append":
+				lens[k] = ln + 1
 				classes["history: an element is appended by a Merge"] = true
+			default:
+				classes["history: the elements before the fault are merged over (index by index) by a Merge"] = true
 			}
 		case "setappend", "pad":
 			at := ln
@@ -527,4 +547,109 @@ func dumpValid(cfg *ucfg.Config) (interface{}, error) {
 		return nil, errDiscard{"history: the valid configuration can not be dumped"}
 	}
 	return data, nil
+}
+
+// ---------------------------------------------------------------------------
+// layers
+
+// listPathsOf returns the paths of the lists an entry (key: value) of the
+// top-level input defines or contributes to.
+func listPathsOf(key string, v interface{}) []string {
+	var out []string
+	under := func(p string, k string) {
+		segs := strings.Split(k, ".")
+		for i, sg := range segs {
+			if isIndexSeg(sg) {
+				out = append(out, strings.Join(append(append([]string{}, p), segs[:i]...), "."))
+			}
+		}
+	}
+	under("", key)
+	var walk func(p string, v interface{})
+	walk = func(p string, v interface{}) {
+		switch x := v.(type) {
+		case map[string]interface{}:
+			for k, e := range x {
+				under(p, k)
+				walk(p+"."+k, e)
+			}
+		case []interface{}:
+			out = append(out, "."+strings.TrimPrefix(p, "."))
+			for i, e := range x {
+				walk(p+"."+strconv.Itoa(i), e)
+			}
+		}
+	}
+	walk("."+key, v)
+	for i := range out {
+		out[i] = "." + strings.TrimPrefix(out[i], ".")
+	}
+	return out
+}
+
+// splitLayers distributes the entries of the input between two inputs that
+// are loaded one after the other (NewFrom, then Merge with the same
+// options). Entries that contribute to the same list stay together (a list
+// merged index by index with a list that leaves a position open would lose
+// the primitive at that position); objects may be defined by both layers.
+func splitLayers(m map[string]interface{}, seed int) (first, second map[string]interface{}) {
+	keys := sortedKeys(m)
+	group := make([]int, len(keys))
+	for i := range group {
+		group[i] = i
+	}
+	var find func(i int) int
+	find = func(i int) int {
+		if group[i] != i {
+			group[i] = find(group[i])
+		}
+		return group[i]
+	}
+	owner := map[string]int{}
+	for i, k := range keys {
+		for _, lp := range listPathsOf(k, m[k]) {
+			if o, ok := owner[lp]; ok {
+				group[find(i)] = find(o)
+			} else {
+				owner[lp] = i
+			}
+		}
+	}
+	first, second = map[string]interface{}{}, map[string]interface{}{}
+	number := map[int]int{}
+	for i, k := range keys {
+		g := find(i)
+		if _, ok := number[g]; !ok {
+			number[g] = len(number)
+		}
+		if seed>>(uint(number[g])%16)&1 == 0 {
+			first[k] = m[k]
+		} else {
+			second[k] = m[k]
+		}
+	}
+	return first, second
+}
+
+// loadLayered normalises data: at once, or (layers != 0, both parts not
+// empty) as two inputs loaded one after the other.
+func loadLayered(data interface{}, layers int, opts []ucfg.Option) (*ucfg.Config, bool, error) {
+	m, ok := data.(map[string]interface{})
+	if layers == 0 || !ok {
+		cfg, err := ucfg.NewFrom(data, opts...)
+		return cfg, false, err
+	}
+	first, second := splitLayers(m, layers)
+	if len(first) == 0 || len(second) == 0 {
+		cfg, err := ucfg.NewFrom(data, opts...)
+		return cfg, false, err
+	}
+	cfg, err := ucfg.NewFrom(first, opts...)
+	if err != nil {
+		return nil, true, err
+	}
+	if err := cfg.Merge(second, opts...); err != nil {
+		return nil, true, err // as returned by the API: callers check its type
+	}
+	return cfg, true, nil
 }
